@@ -69,6 +69,10 @@ def make_builtins(eng):
             z3.And(z3.Not(v.isnone), z3.BoolVal(isinstance(v.inner, VReal)))
         if n == "bool": return z3.BoolVal(isinstance(v, VBool))
         if n == "str": return z3.BoolVal(isinstance(v, VStr))
+        if isinstance(v, VAbs) and hasattr(v, "isinstance"):
+            r = v.isinstance(n, st, eng)
+            if r is not None:
+                return r
         if n in ("list",):
             if isinstance(v, VSeq) and v.kind is not None:
                 return v.kind == 0
